@@ -16,6 +16,7 @@ from common import Failure, cZ, cN, cnat, cbool, clist, copt
 import impl
 import c02
 
+TRUSTED_EXTRA = ['harness/py2coq.py (Python->Gallina translator for the small pure functions named in DESIGN 12.8) and coq/Lib/PyVal.v: trusted by the SrcTie theorems only']
 EXPLANATION = ('Theorems over the Gallina model of the suite reader / enumerator / executor / two reporters; tables of both '
                'reporters regenerated from the running code; end-to-end correspondence on generated hierarchies.')
 ASSUMPTIONS = ['file-system lookups of references (stat, pathlib.glob) are evaluated by the harness to build the model input',
